@@ -1000,4 +1000,14 @@ theorem ProcComp.push_stop (u : Units) (depth : Nat) (periods : List Int) (c : P
       rw [ProcComp.insts_setCores]
       simp [ProcComp.insts, AL.get?_set_self, AL.get?_erase_self]
 
+/-! ## rationals (rounding argument of the repaired `cpu_statistics`) -/
+
+/-- a quotient of non-negative rationals `w ≤ t` lies in [0, 1] -/
+theorem rat_div_unit {w t : Rat} (h0 : 0 ≤ w) (h1 : w ≤ t) (ht : 0 < t) : 0 ≤ w / t ∧ w / t ≤ 1 := by
+  rw [Rat.div_def]
+  have hinv : 0 ≤ t⁻¹ := Rat.le_of_lt (Rat.inv_pos.mpr ht)
+  refine ⟨Rat.mul_nonneg h0 hinv, ?_⟩
+  have := Rat.mul_le_mul_of_nonneg_right h1 hinv
+  rwa [Rat.mul_inv_cancel t (by grind)] at this
+
 end Supv.Stats
